@@ -106,8 +106,13 @@ def build(targets=None, timeout=3000, keep_going=False):
         if missing:
             return False, 'missing source for target(s): %s' % ' '.join(missing), gen_status
         # every coqc runs under tools/coqc_t (per-file time limit) so that a runaway proof cannot hold the lock
-        rc, out = sh('make -f Makefile.coq COQC=%s -j%d %s %s' % (os.path.join(VERIF, 'tools', 'coqc_t'), NCPU,
-                                                                '-k' if keep_going else '', tg), cwd=VERIF, timeout=timeout)
+        cmd = 'make -f Makefile.coq COQC=%s -j%%d %s %s' % (os.path.join(VERIF, 'tools', 'coqc_t'), '-k' if keep_going else '', tg)
+        rc, out = sh(cmd % min(NCPU, max(2, _mem_workers())), cwd=VERIF, timeout=timeout)
+        if rc != 0 and re.search(r'Killed|Out of memory|Error 137|signal 9', out[-4000:]):
+            # a coqc was killed (memory pressure from other jobs): what was built stays, finish with two jobs
+            time.sleep(10)
+            rc, out2 = sh(cmd % 2, cwd=VERIF, timeout=timeout)
+            out = out + '\n[retry after a killed job]\n' + out2
         return rc == 0, out, gen_status
 
 
@@ -129,11 +134,36 @@ def parse_nat_lists(output):
     return res
 
 
+def _mem_workers():
+    """number of parallel coqc jobs the available memory allows (a case file needs 0.6-1.5 GB)"""
+    try:
+        for line in open('/proc/meminfo'):
+            if line.startswith('MemAvailable:'):
+                gb = int(line.split()[1]) / 1048576.0
+                return max(2, min(NCPU, int(gb / 1.5)))
+    except (OSError, ValueError):
+        pass
+    return NCPU
+
+
+def _killed(rc, out):
+    """coqc did not answer because it was killed (OOM killer, signal) or ran out of memory - not a verdict"""
+    return rc < 0 or rc in (137, 143) or 'Out of memory' in out[-400:] or 'Stack overflow' in out[-400:]
+
+
 def run_case_files(files, timeout=900):
-    """coqc several case files in parallel; returns list of (path, rc, output)"""
+    """coqc several case files in parallel; returns list of (path, rc, output).  The degree of parallelism
+    follows the memory that is free; a job that was killed is repeated on its own (twice at most)."""
     from concurrent.futures import ThreadPoolExecutor
-    with ThreadPoolExecutor(max_workers=NCPU) as ex:
+    with ThreadPoolExecutor(max_workers=_mem_workers()) as ex:
         outs = list(ex.map(lambda p: (p,) + coqc_file(p, timeout), files))
+    for attempt in range(2):
+        redo = [k for k, (_, rc, out) in enumerate(outs) if _killed(rc, out)]
+        if not redo:
+            break
+        time.sleep(5 + 20 * attempt)
+        for k in redo:
+            outs[k] = (outs[k][0],) + coqc_file(outs[k][0], timeout)
     return outs
 
 
